@@ -156,7 +156,7 @@ func (s *sessionSpec) session() *expect.Session {
 func Run(cfg fw.Config, rec *fw.Rec) {
 	log.SetOutput(io.Discard)
 	rec.Rule = "sessions of 1-3 steps, 0-3 expected outputs per step over 6 patterns, inverted outputs, guards {none, accept, reject, accept-if}, run with /bin/cat as the subprocess so that the emitted stream is exactly the session's inputs (duplicates of one expected message while another never arrives, never-arriving messages with 120 ms timeouts, non-JSON noise, messages and noise lines of 4080-70000 bytes around the 4096-byte buffer boundaries); a third of the passing sessions are run a second time - their outputs now carry recorded bindings - on a stream that meets no expectation and must fail; oracle: Run()==nil implies the reference window model justifies a pass under some resolution; non-trivial = session with >= 2 expected outputs in some step that the tool passed, or any session the tool failed; distinct by session"
-	rec.Required = []string{"tool_passed_and_justified", "tool_failed", "family_duplicate_instead_of_other", "family_rejecting_guard", "family_inverted", "family_never_arrives", "family_noise", "family_long_lines", "rerun_with_recorded_bindings_failed_as_it_must"}
+	rec.Required = []string{"tool_passed_and_justified", "tool_failed", "family_duplicate_instead_of_other", "family_rejecting_guard", "family_inverted", "family_never_arrives", "family_noise", "family_long_lines", "rerun_with_recorded_bindings_failed_as_it_must", "rerun_with_bindings_on_an_inverted_output_failed_as_it_must"}
 	rec.Assume = []string{"slowness can only turn a pass into a timeout failure, never the reverse, so load cannot cause a false alarm", "the reference is at least as permissive as the documentation: windows may extend into later steps' lines, a step without positive expectations may or may not consume a line"}
 	n := cfg.Pick(1500, 20000)
 	fw.Parallel(cfg.Workers, n, func(w, i int) {
@@ -273,6 +273,38 @@ func Run(cfg fw.Config, rec *fw.Rec) {
 					return
 				}
 				rec.Bucket("rerun_with_recorded_bindings_failed_as_it_must")
+			}
+		}
+		// ... and the other way round: a session that failed because a forbidden message
+		// arrived (its inverted output now carries the bindings of that match), or whose
+		// file already carries bindings on an inverted output, fails again on the same stream
+		if family == "inverted" && err != nil && !want {
+			for pre := 0; pre < 2; pre++ {
+				s3 := s.session()
+				if pre == 1 {
+					for k := range s3.IOs {
+						for j := range s3.IOs[k].OutputSet {
+							if s3.IOs[k].OutputSet[j].Inverted {
+								s3.IOs[k].OutputSet[j].Bindingss = []match.Bindings{{"?y": 1.0}}
+							}
+						}
+					}
+				} else {
+					s3 = sess
+				}
+				ctx3, cancel3 := context.WithTimeout(context.Background(), 20*time.Second)
+				var err3 error
+				p3 := rec.Guard("C19:rerun-inverted", s, func() { err3 = s3.Run(ctx3, "", "/bin/cat") })
+				cancel3()
+				if p3 {
+					return
+				}
+				rec.Eval(1)
+				if err3 == nil {
+					rec.Violation("C19:unjustified-pass:inverted-output-with-recorded-bindings", "a session whose forbidden message arrives passed because its inverted output already carried bindings (recorded by an earlier run, or given in the session)", map[string]interface{}{"session": s, "bindings_given_in_the_session": pre == 1})
+					return
+				}
+				rec.Bucket("rerun_with_bindings_on_an_inverted_output_failed_as_it_must")
 			}
 		}
 		hasNoise, never, inverted := false, false, false
